@@ -721,6 +721,7 @@ Lemma apply_core_content_only p t :
              /\ r_fs (apply_core no_fault p t) = s_fs s1.
 Proof.
   intros R. unfold apply_core. rewrite R. cbn [first_conflict find sort_renames fold_right].
+  destruct (first_unreadable t (edits_by_file (ap_hunks p))); [cbn; discriminate|].
   destruct (content_stage no_fault (edits_by_file (ap_hunks p)) _) as [s1|[f s1]]; cbn; [|discriminate].
   intros _. exists s1. auto.
 Qed.
@@ -1308,6 +1309,7 @@ Qed.
    the content stage plus the number of renames performed). *)
 Theorem apply_rename_fault_rolled_back inj p t s1 :
   first_conflict t (ap_renames p) = None ->
+  first_unreadable t (edits_by_file (ap_hunks p)) = None ->
   content_stage inj (edits_by_file (ap_hunks p)) {| s_fs := t; s_n := 0; s_trace := [] |} = inl s1 ->
   r_ok (apply_core inj p t) = false ->
   (forall a b, In (a, b) (stage_steps (sort_renames (ap_renames p)) []) -> case_only a b = false) ->
@@ -1315,7 +1317,7 @@ Theorem apply_rename_fault_rolled_back inj p t s1 :
   (forall n, (s_n s1 + length (r_performed (apply_core inj p t)) < n)%nat -> inj n = false) ->
   r_fs (apply_core inj p t) = s_fs s1.
 Proof.
-  intros FC CS. unfold apply_core. rewrite FC, CS.
+  intros FC FU CS. unfold apply_core. rewrite FC, FU, CS.
   destruct (rename_stage inj (sort_renames (ap_renames p)) [] [] s1) as [[[s2 perf] exe]|[[[f s2] perf] exe]] eqn:RS;
     cbn [r_ok r_fs r_performed]; [discriminate|].
   intros _ NC F Hinj.
@@ -1339,7 +1341,8 @@ Proof.
   destruct (first_conflict t (ap_renames p)) as [r|] eqn:FC.
   - unfold apply_core. rewrite FC. reflexivity.
   - apply (apply_rename_fault_rolled_back inj p t {| s_fs := t; s_n := 0; s_trace := [] |}); auto.
-    rewrite Hh. reflexivity.
+    + rewrite Hh. reflexivity.
+    + rewrite Hh. reflexivity.
 Qed.
 
 Corollary rename_only_failed_apply_changes_nothing_closed inj p t :
